@@ -1,1 +1,98 @@
-(* placeholder *)
+(* C17 -- Code generation is deterministic.
+   Only statements, each closed by [exact] of a lemma proved in Proofs/, with Print Assumptions beneath.
+
+   The model (Pipeline.v) is the order-sensitive skeleton of pilota-build's emission.  Every iteration of a
+   hash container with a per-process seed and every rayon parallel loop is a PARAMETER of the model: an
+   arbitrary function returning a permutation of its argument ([perm_fun]).  Rendering of one item
+   ([render]), the module path of an item ([mod_path]) and the split-mode file-name pieces are arbitrary
+   functions.  The theorems say the output is the same for ALL values of the permutation parameters.
+   Inventory.v (regenerated from the Rust sources on every run) ties the parameters to the code: the list
+   of unordered-iteration sites must be exactly the list the model accounts for. *)
+From Coq Require Import String List Permutation.
+From PVBld Require Import Generated.Inventory Pipeline Proofs.PipelineP Proofs.InventoryP.
+Import ListNotations.
+
+(* single-file mode: the text written to the output file (and the -- empty -- set of side files) *)
+Theorem C17_single :
+  forall (item : Type) (mod_path : item -> path) (render kind_prefix item_name : item -> string)
+         pi_mods pi_work pi_keys pi_tree pi_mods' pi_work' pi_keys' pi_tree',
+    perm_fun pi_mods -> perm_fun pi_work -> perm_fun pi_keys -> perm_fun pi_tree ->
+    perm_fun pi_mods' -> perm_fun pi_work' -> perm_fun pi_keys' -> perm_fun pi_tree' ->
+    forall items,
+      write_items item mod_path render kind_prefix item_name pi_mods pi_work pi_keys pi_tree false items =
+      write_items item mod_path render kind_prefix item_name pi_mods' pi_work' pi_keys' pi_tree' false items.
+Proof. exact single_inv. Qed.
+Print Assumptions C17_single.
+
+(* split mode: the text of the main file, the write log of every directory (file names in the order
+   generate_unique_name assigned them, contents), hence the set of (directory, file name, content) *)
+Theorem C17_split :
+  forall (item : Type) (mod_path : item -> path) (render kind_prefix item_name : item -> string)
+         pi_mods pi_work pi_keys pi_tree pi_mods' pi_work' pi_keys' pi_tree',
+    perm_fun pi_mods -> perm_fun pi_work -> perm_fun pi_keys -> perm_fun pi_tree ->
+    perm_fun pi_mods' -> perm_fun pi_work' -> perm_fun pi_keys' -> perm_fun pi_tree' ->
+    forall items,
+      write_items item mod_path render kind_prefix item_name pi_mods pi_work pi_keys pi_tree true items =
+      write_items item mod_path render kind_prefix item_name pi_mods' pi_work' pi_keys' pi_tree' true items /\
+      files_of (write_items item mod_path render kind_prefix item_name pi_mods pi_work pi_keys pi_tree true items) =
+      files_of (write_items item mod_path render kind_prefix item_name pi_mods' pi_work' pi_keys' pi_tree' true items).
+Proof. exact split_inv. Qed.
+Print Assumptions C17_split.
+
+(* workspace mode (both split settings): the `members` lines of the root Cargo.toml and, per crate, the
+   dependency list, gen.rs and the split files -- provided distinct locations have distinct crate names *)
+Theorem C17_workspace :
+  forall (item : Type) (mod_path : item -> path) (render kind_prefix item_name : item -> string)
+         (loc : Type) (loc_eqb : loc -> loc -> bool) (location : item -> loc) (crate_name : loc -> string)
+         (repubs : loc -> list item -> list item) (dep_names : loc -> list item -> list string)
+         pi_mods pi_work pi_keys pi_tree pi_entry pi_crates
+         pi_mods' pi_work' pi_keys' pi_tree' pi_entry' pi_crates',
+    (forall a b : loc, loc_eqb a b = true <-> a = b) ->
+    perm_fun pi_mods -> perm_fun pi_work -> perm_fun pi_keys -> perm_fun pi_tree ->
+    perm_fun pi_entry -> perm_fun pi_crates ->
+    perm_fun pi_mods' -> perm_fun pi_work' -> perm_fun pi_keys' -> perm_fun pi_tree' ->
+    perm_fun pi_entry' -> perm_fun pi_crates' ->
+    forall split lm_items,
+      NoDup (crate_names item loc loc_eqb location crate_name lm_items) ->
+      workspace item mod_path render kind_prefix item_name pi_mods pi_work pi_keys pi_tree
+                loc loc_eqb location crate_name repubs dep_names pi_entry pi_crates split lm_items =
+      workspace item mod_path render kind_prefix item_name pi_mods' pi_work' pi_keys' pi_tree'
+                loc loc_eqb location crate_name repubs dep_names pi_entry' pi_crates' split lm_items.
+Proof. exact workspace_inv. Qed.
+Print Assumptions C17_workspace.
+
+(* the side condition is necessary: `dedup` runs before `sorted` *)
+Theorem C17_workspace_dup_names_refuted :
+  exists (lm_items : list nat) (crate_name : nat -> string) (pi_entry pi_entry' : list (nat * list nat) -> list (nat * list nat)),
+    perm_fun pi_entry /\ perm_fun pi_entry' /\
+    let ws pe := fst (workspace nat (fun _ => []) (fun _ => ""%string) (fun _ => ""%string) (fun _ => ""%string)
+                                (fun l => l) (fun l => l) (fun l => l) (fun l => l)
+                                nat Nat.eqb (fun i => i) crate_name (fun _ _ => []) (fun _ _ => [])
+                                pe (fun l => l) false lm_items) in
+    ws pi_entry <> ws pi_entry'.
+Proof. exact workspace_dup_names_refuted. Qed.
+Print Assumptions C17_workspace_dup_names_refuted.
+
+(* protobuf front end after fix F-17a: the items a message lowers to (own item, module of nested items in
+   declaration order, map-entry decisions of its fields) do not depend on the order of the AHashMap *)
+Theorem C17_nested :
+  forall pi pi', perm_fun pi -> perm_fun pi' -> forall m, lower_message pi m = lower_message pi' m.
+Proof. exact lower_message_inv. Qed.
+Print Assumptions C17_nested.
+
+(* the pinned clause (nested messages taken from `nested_messages.iter()`): two siblings suffice *)
+Theorem C17_nested_refuted :
+  exists pi pi', perm_fun pi /\ perm_fun pi' /\
+    lower_message_pinned pi 2 two_nested <> lower_message_pinned pi' 2 two_nested.
+Proof. exact lower_message_pinned_refuted. Qed.
+Print Assumptions C17_nested_refuted.
+
+(* tie to the code: the regenerated inventory of unordered-iteration sites is the list accounted for, every
+   iterating site carries a reason, and the reasons name exactly the model's permutation parameters *)
+Theorem C17_inventory :
+  map fst accounted = sites /\
+  forallb justified accounted = true /\
+  forallb (fun p => existsb (String.eqb p) model_params) (flat_map (fun sr => params_of (snd sr)) accounted) = true /\
+  forallb (fun p => existsb (String.eqb p) (flat_map (fun sr => params_of (snd sr)) accounted)) model_params = true.
+Proof. exact (conj inventory_accounted (conj inventory_justified inventory_params)). Qed.
+Print Assumptions C17_inventory.
